@@ -38,7 +38,9 @@ func c05Pool(tier string) []string {
 
 func c05Patterns(tier string) []string {
 	p := []string{"*.x", "**/*.x", "**", "d/**", "d/*", "*/*", "*", "{a,b}*.x", "**/a.x", "d/**/*.x",
-		"*/.h.x", "[a-b]*.x", "*.y", "**/*.y", "d/e/*", "?*.x", "**/.h.x", ".*", "d/*.x", "*/*/*"}
+		"*/.h.x", "[a-b]*.x", "*.y", "**/*.y", "d/e/*", "?*.x", "**/.h.x", ".*", "d/*.x", "*/*/*",
+		// a trailing slash asks for directories only: no regular file is denoted
+		"*/", "d/*/", "**/*/"}
 	if tier == "thorough" {
 		p = append(p, "**/e/*", "d/**/a*.x", "**/*", ".hd/*", "d/.hd/*", "*a.x", "**/d/*.x", "[!a]*.x", "{d,e}/*a.x")
 	}
@@ -207,7 +209,7 @@ func c05Eval(sb *proj.Sandbox, paths, patterns []string, text string, res *c05Re
 				continue
 			}
 			for _, d := range dirs[pat] {
-				ok, _ := doublestar.Match(pat, d)
+				ok, _ := doublestar.Match(strings.TrimSuffix(pat, "/"), strings.TrimSuffix(d, "/")) // a trailing slash only says "directories"
 				if !ok || strings.HasPrefix(d, ".") {
 					report(pat, "directory-included", fmt.Sprintf("directory %q in the result does not match / is hidden", d))
 				}
